@@ -4582,3 +4582,145 @@ func rulePresenceGuardsSameCache(r *Run, rule string) {
 		}
 	}
 }
+
+// ruleLockCoversItsLine (R06.20): a per-line lock is handed out by a getter that keys its table
+// with an alignment function. Where a function takes such a lock and, holding it, operates
+// directly on a cache, the alignment of the lock's key is the line size of that cache: a lock
+// keyed at a finer grain than the line it protects does not exclude an access to the other
+// part of the line.
+func ruleLockCoversItsLine(r *Run, rule string) {
+	w := r.W
+	for _, v := range variants(w) {
+		if v.pkg == nil || !v.pipelined() || !usesLineLocks(w, v) {
+			continue
+		}
+		info := v.info
+		pe := newProvEngine(w, v.pkg)
+		_, byVar := resolvedCaches(w, v)
+		// lock getters: functions returning *sync.Mutex or *comp.Sem whose body calls an alignment function
+		getterAlign := map[*types.Func]int64{}
+		for _, f := range v.pkg.Syntax {
+			for _, d := range f.Decls {
+				fd, ok := d.(*ast.FuncDecl)
+				if !ok || fd.Body == nil || fd.Type.Results == nil || len(fd.Type.Results.List) != 1 {
+					continue
+				}
+				rt := info.TypeOf(fd.Type.Results.List[0].Type)
+				isLock := isCompType(rt, "Sem")
+				if p, ok := rt.(*types.Pointer); ok && !isLock {
+					if n := namedOf(p.Elem()); n != nil && n.Obj().Pkg() != nil && n.Obj().Pkg().Path() == "sync" && n.Obj().Name() == "Mutex" {
+						isLock = true
+					}
+				}
+				if !isLock {
+					continue
+				}
+				var size int64
+				ast.Inspect(fd.Body, func(k ast.Node) bool {
+					if c, ok := k.(*ast.CallExpr); ok {
+						if fn, ok := typeutil.Callee(info, c).(*types.Func); ok {
+							if sz, ok := pe.alignmentFunc(fn); ok {
+								size = sz
+							}
+						}
+					}
+					return true
+				})
+				if size != 0 {
+					if fn, ok := info.Defs[fd.Name].(*types.Func); ok {
+						getterAlign[fn] = size
+					}
+				}
+			}
+		}
+		if len(getterAlign) == 0 {
+			continue
+		}
+		for _, f := range v.pkg.Syntax {
+			for _, d := range f.Decls {
+				fd, ok := d.(*ast.FuncDecl)
+				if !ok || fd.Body == nil {
+					continue
+				}
+				n := 0
+				// every function literal / body: lock variables defined from a getter, and caches operated on after
+				var scan func(body *ast.BlockStmt)
+				scan = func(body *ast.BlockStmt) {
+					type held struct {
+						obj  types.Object
+						size int64
+						pos  token.Pos
+						g    string
+					}
+					var locks []held
+					ast.Inspect(body, func(k ast.Node) bool {
+						if fl, ok := k.(*ast.FuncLit); ok && fl.Body != body {
+							scan(fl.Body)
+							return false
+						}
+						as, ok := k.(*ast.AssignStmt)
+						if !ok || len(as.Lhs) != 1 || len(as.Rhs) != 1 {
+							return true
+						}
+						call, ok := as.Rhs[0].(*ast.CallExpr)
+						if !ok {
+							return true
+						}
+						fn, ok := typeutil.Callee(info, call).(*types.Func)
+						if !ok || getterAlign[fn] == 0 {
+							return true
+						}
+						if id, ok := as.Lhs[0].(*ast.Ident); ok {
+							o := info.Defs[id]
+							if o == nil {
+								o = info.Uses[id]
+							}
+							locks = append(locks, held{o, getterAlign[fn], as.End(), fn.Name()})
+						}
+						return true
+					})
+					for _, lk := range locks {
+						// the lock must be acquired here (Lock/TryLock/RLock on the variable)
+						acquired := false
+						ast.Inspect(body, func(k ast.Node) bool {
+							if c, ok := k.(*ast.CallExpr); ok {
+								if sel, ok := c.Fun.(*ast.SelectorExpr); ok && (sel.Sel.Name == "TryLock" || sel.Sel.Name == "Lock" || sel.Sel.Name == "RLock") {
+									if id, ok := ast.Unparen(sel.X).(*ast.Ident); ok && info.Uses[id] == lk.obj {
+										acquired = true
+									}
+								}
+							}
+							return true
+						})
+						if !acquired {
+							continue
+						}
+						sizes := map[int64]string{}
+						ast.Inspect(body, func(k ast.Node) bool {
+							if fl, ok := k.(*ast.FuncLit); ok && fl.Body != body {
+								return false
+							}
+							c, ok := k.(*ast.CallExpr)
+							if !ok || c.Pos() < lk.pos {
+								return true
+							}
+							sel, ok := c.Fun.(*ast.SelectorExpr)
+							if !ok || !isCompType(info.TypeOf(sel.X), "LRUCache") {
+								return true
+							}
+							if ci := cacheOfExpr(v, byVar, sel.X); ci != nil && ci.lineSize > 0 {
+								sizes[ci.lineSize] = ci.field.Name()
+							}
+							return true
+						})
+						for sz, cname := range sizes {
+							n++
+							r.check(sz == lk.size, rule, fmt.Sprintf("%s.%s:lock(%s)-covers(%s)#%d", v.rel, declName(fd), lk.g, cname, n), lk.pos, "the lock taken from %s is keyed at %d bytes and protects operations on cache %s, whose lines are %d bytes", lk.g, lk.size, cname, sz)
+						}
+					}
+				}
+				scan(fd.Body)
+			}
+		}
+	}
+}
